@@ -16,7 +16,7 @@ Lemma pins_C20_ok :
   ; pin_util__pseudo_inverse_from_eig ] =
   [ "5e728c041fbb863b578fe3fb021dc1033ddfb0f77fbb88b5447e5d09020f7fc7"   (* _util.py: components_from_metric *)
   ; "66824983bb31dcc8731443dc08c0f12bf6fb86f516af6f26d5ed25a975f5dae4"   (* _util.py: _check_sdp_from_eigen *)
-  ; "2616085db5aaeacca8cf34372d595ed4c316b6be2ab0f832c793f244a186432f"   (* _util.py: _initialize_metric_mahalanobis *)
+  ; "864e56fe3a6d03b12fea8677b29b2590e4778885d74bda922ed3d7d88927215e"   (* _util.py: _initialize_metric_mahalanobis *)
   ; "beeab2c7ef45b35ee1d01796d7469f24d9c683f757f925546a873d14c5e7f07e"   (* _util.py: _initialize_components *)
   ; "e405712975fdacc84c3034b85ca43e134f3f735a83dd8aed63bf025e62250984"   (* _util.py: _auto_select_init *)
   ; "ea7080406b5c9ab0b562ba0d881e96ee8eaa9da9ddee2b4a08ac688e2a3a910a"   (* _util.py: _pseudo_inverse_from_eig *) ].
